@@ -76,9 +76,12 @@ PROGRAMS = {
     "searchsorted": C("searchsorted", [inp((5,), (2,), kind="pos"), inp((3,), (2,), kind="pos")], side="left"),
     "diff": C("diff", [inp((6,), (2,))], axis=-1, n=1),
     "arange": C("creation", [], fn="arange", args=[7], chunks=[2]),
+    # reduced axis in a single chunk: the task works directly on the block it read
+    "nanmedian": C("nanmedian", [inp((4, 6), (4, 3), kind="nan")], axis=0, keepdims=False),
+    "sort-like-inplace-candidates": C("unary_float", [inp((4, 6), (2, 3))], fn="abs"),
 }
 QUICK = ["negative", "subtract-diffchunks", "sum-axis0", "mean-axis1", "argmax", "cumsum", "rechunk", "matmul", "stack", "getitem-step",
-         "unstack", "qr", "map_blocks-block_id", "random", "from_zarr", "concat"]
+         "unstack", "qr", "map_blocks-block_id", "random", "from_zarr", "concat", "nanmedian"]
 
 
 def digest_store(world):
@@ -103,6 +106,7 @@ class Prepared:
         self.world.hash_sets = True
         self.spec = make_spec(self.world, allowed_mem=2000 if name == "rechunk" else 4_000_000)
         self.ns = np_inputs(self.case, seed)
+        self.ns_pristine = [np.array(a, copy=True) for a in self.ns]
         self.exp = None if self.op.nondet else reference(self.case, self.ns)
         import random as pyrandom
         pyrandom.seed(1234 + seed)  # cubed.random draws its root seed from Python's random at build time
@@ -154,6 +158,11 @@ class Prepared:
             bad = [k for k in cur if cur[k] != self.ref_bytes[k]]
             if bad:
                 probs.append(("store-content-differs", f"{len(bad)} stored objects differ from the reference run, e.g. {bad[:3]}"))
+        # a task must not modify the in-memory input it was handed (it is shared by every other task and every re-execution)
+        for k, (a, b) in enumerate(zip(self.ns, self.ns_pristine)):
+            if not np.array_equal(a, b, equal_nan=True):
+                probs.append(("input-modified", f"in-memory input {k} was modified by the computation"))
+                self.ns[k][...] = b  # restore for the following schedules
         # repeated sets of a key must carry identical bytes
         seen = {}
         for ev in self.world.log:
